@@ -180,6 +180,23 @@ def check(run):
             d = identities(D, DT, masses, f"{names[0]}-mixture at {T} K, {P} Pa")
             if d and found is None:
                 found = {"kind": "input", "what": d, "names": names, "x0": x0, "T": T, "P": P}
+            # the same object after x0 is re-assigned at the same T and P (a composition sweep): the identities must hold for the
+            # matrices of the CURRENT state, and the coefficients must be those of a fresh mixture
+            if names is gen.SICO:
+                x0b = gen.sico_x0(0.15)
+                with warnings.catch_warnings():
+                    warnings.simplefilter("ignore")
+                    m.x0 = x0b
+                    D2, DT2 = np.array(ft.Dij(m)), np.array(ft.DTi(m))
+                    mf = mpc.mixture.lte_from_names(names, x0b, T, P)
+                    Df, DTf = np.array(ft.Dij(mf)), np.array(ft.DTi(mf))
+                run.count(1, distinct_key=("lte-reassigned", names[0], T, P))
+                d = identities(D2, DT2, masses, f"{names[0]}-mixture at {T} K, {P} Pa after x0 was re-assigned on the same object")
+                if d is None and (np.max(np.abs(D2 - Df)) > 1e-6 * np.max(np.abs(Df)) or np.max(np.abs(DT2 - DTf)) > 1e-6 * np.max(np.abs(DTf))):
+                    d = (f"{names[0]}-mixture at {T} K, {P} Pa: diffusion coefficients after re-assigning x0 on a used object differ from a fresh mixture "
+                         f"(max |dD| / max |D| = {float(np.max(np.abs(D2 - Df)) / np.max(np.abs(Df))):.3e})")
+                if d and found is None:
+                    found = {"kind": "history", "what": d, "names": names, "x0": x0, "then_x0": x0b, "T": T, "P": P}
     if found:
         found["broken"] = broken
         run.violation(found)
